@@ -31,7 +31,7 @@ def record(draw, N, kinds=None, allow_list=True, scale=True):
     if kind == "sines":
         d["freqs"] = draw(st.lists(st.floats(0.001, 0.499), min_size=1, max_size=3))
     if kind == "offset":
-        d["offset"] = draw(st.sampled_from([1.0, 1e3, 1e6, -1e6]))
+        d["offset"] = draw(st.sampled_from([1.0, 1e3, 1e6, -1e6, 1e9, 1e12, -1e12]))   # up to a pedestal 1e12 times the signal
     if kind == "ramp":
         d["slope"] = draw(st.sampled_from([1e-3, 1.0, -0.1, 10.0]))
     if kind == "line":
